@@ -20,6 +20,18 @@ def gym_obs_close(gobs: Any, nobs: Any) -> bool:
     return tree_close(gobs, want)
 
 
+def _half_discount(env: Any) -> Any:
+    """the environment with every discount halved (an in-contract environment: discounts stay inside [0, 1]); a discount of 0 stays 0"""
+    from jumanji.wrappers import Wrapper
+
+    class HalfDiscount(Wrapper):
+        def step(self, state, action):
+            state, ts = self._env.step(state, action)
+            return state, ts.replace(discount=ts.discount * 0.5)
+
+    return HalfDiscount(env)
+
+
 def run(ctx: Ctx, extended: bool = False) -> None:
     import dm_env
     import jax
@@ -110,6 +122,35 @@ def run(ctx: Ctx, extended: bool = False) -> None:
                     ctx.fail(e.cid, "gym_obs_in_space", "step observation is not in the converted observation space", info, {"cls": e.cls, "phase": "step"})
                 episode_over = episode_over or want_trunc
                 ctx.count(f"gym_step_term={term}_trunc={trunc}")
+        # ---------------- gym flags under a fractional discount: "terminated exactly when the native discount is zero" must not
+        # rely on discounts being 0 or 1.  Two in-contract sources of discounts strictly between 0 and 1: a multi-agent environment
+        # behind MultiToSingleWrapper with a mean aggregator, and any environment behind a wrapper that halves the discount.
+        frac_envs = []
+        if multi:
+            frac_envs.append(("mean_discount", MultiToSingleWrapper(base, reward_aggregator=jnp.sum, discount_aggregator=jnp.mean)))
+        if (not ctx.quick) or extended or multi or (sum(map(ord, e.cid)) + ctx.seed) % 2 == 0:
+            frac_envs.append(("half_discount", _half_discount(env)))
+        for fname, fenv in frac_envs:
+            fg = JumanjiToGymWrapper(fenv, seed=seed + 3)
+            fstep, freset = jax.jit(fenv.step), jax.jit(fenv.reset)
+            fsched = drv.call("wrappers.gym_schedule", seed=seed + 3, ops=["reset"])
+            fg.reset()
+            fstate, fts = freset(eval_key(fsched[0]))
+            lim = int(e.meta.get("time_limit") or 0)
+            for i in range(min(30, lim + 1) if 0 < lim <= 40 else nsteps):
+                ctx.evaluations += 1
+                a = np.asarray(sample_action(fenv, rng))
+                _, reward, term, trunc, _ = fg.step(a)
+                fstate, fts = fstep(fstate, jnp.asarray(a))
+                disc = float(np.asarray(fts.discount))
+                ctx.nontrivial.add((e.cid, fname, i, disc))
+                if 0.0 < disc < 1.0:
+                    ctx.count("gym_fractional_discount_steps")
+                if term != (disc == 0.0) or trunc != (int(fts.step_type) == 2) or not np.isclose(reward, float(fts.reward), atol=1e-6):
+                    ctx.fail(e.cid, "gym_flags", f"[{fname}] gym flags (terminated={term}, truncated={trunc}) but native discount=={disc}, LAST={int(fts.step_type) == 2}", {**info, "variant": fname, "step": i})
+                    break
+                if int(fts.step_type) == 2:
+                    break
         # re-seeding with the initial seed reproduces the first reset observation
         if first_episode and replay_episode and not tree_close(first_episode[0][1], replay_episode[0][1]):
             ctx.fail(e.cid, "gym_reseed_reproducible", "re-seeding with the same seed does not reproduce the first observation", info)
